@@ -435,11 +435,9 @@ func c20(r *core.Run) {
 	resourcesOf := func(p *sched.Proc) resources {
 		var out resources
 		for _, t := range p.LiveTasks() {
-			harnessTask := false
-			for _, pre := range []string{"create", "reconfigurer", "poller", "queries", "Refresh", "fresh", "mutator", "squeezer", "again"} {
-				harnessTask = harnessTask || strings.HasPrefix(t.Name, pre)
-			}
-			if !harnessTask {
+			// goroutines started by the library are named callee#n by simrt.Go;
+			// the harness's own tasks never carry a '#'
+			if strings.Contains(t.Name, "#") {
 				out.lib++
 			}
 		}
